@@ -12,12 +12,12 @@ from rv import romodel as R
 from rv import sets as S
 from rv import common as C
 
-N_CASES = {'quick': 640, 'thorough': 20000}
+N_CASES = {'quick': 1920, 'thorough': 20000}
 TIMEOUT = {'quick': 1500, 'thorough': 6 * 3600}
 ANCHORS = ['lp:RoConstr.le_to_rc', 'lp:RoConstr.forall', 'ro:Model.minmax', 'ro:Model.maxmin',
            'ro:Model.st', 'ro:Model.do_math', 'lp:DecRule.to_affine', 'lp:DecRule.adapt',
            'lp:Affine.__matmul__', 'lp:Model.do_math', 'socp:Model.do_math', 'gcp:Model.do_math']
-FLOORS = {'judged': {'quick': 350, 'thorough': 10000}, 'nontrivial': 60}
+FLOORS = {'judged': {'quick': 1050, 'thorough': 10000}, 'nontrivial': 60}
 RULE = ('random ro models: 1-4 static variables, 0-2 decision rules with random dependency '
         'masks, 1-5 robust rows (<=, >=, ==) incl. bilinear x\'Pz terms, min/max/minmax/maxmin '
         'with maxof/minof pieces, default and per-row sets from {box, 1/2/inf/p-norm, sumsqr, '
